@@ -143,7 +143,8 @@ def flat_mem(mm, E):
 
 
 def pointer_accesses(m, s0):
-    """[(base rendering, concrete address, nbytes)] of every memory access (store or load) in the symbolic map m"""
+    """[(base rendering, concrete address, nbytes, wraps)] of every memory access (store or load) in the symbolic map m;
+    wraps: base + displacement leaves the address space, or the access runs over its end"""
     acc = []
 
     def walk(e):
@@ -153,7 +154,7 @@ def pointer_accesses(m, s0):
             try:
                 a = s0(e.a.base)
                 if a._is_cst:
-                    acc.append((str(e.a.base), (a.v + e.a.disp) & X.mask(a.size), max(1, e.size // 8)))
+                    acc.append((str(e.a.base), (a.v + e.a.disp) & X.mask(a.size), max(1, e.size // 8), not (0 <= a.v + e.a.disp <= (1 << a.size) - max(1, e.size // 8))))
             except Exception:
                 pass
             walk(e.a.base)
@@ -182,7 +183,7 @@ def pointer_accesses(m, s0):
             try:
                 a = s0(loc.base)
                 if a._is_cst:
-                    acc.append((str(loc.base), (a.v + loc.disp) & X.mask(a.size), max(1, v.size // 8)))
+                    acc.append((str(loc.base), (a.v + loc.disp) & X.mask(a.size), max(1, v.size // 8), not (0 <= a.v + loc.disp <= (1 << a.size) - max(1, v.size // 8))))
             except Exception:
                 pass
         walk(v)
@@ -192,8 +193,8 @@ def pointer_accesses(m, s0):
 def distinct_pointers_overlap(acc):
     for i in range(len(acc)):
         for j in range(i + 1, len(acc)):
-            b1, a1, n1 = acc[i]
-            b2, a2, n2 = acc[j]
+            b1, a1, n1 = acc[i][:3]
+            b2, a2, n2 = acc[j][:3]
             if b1 != b2 and a1 < a2 + n2 and a2 < a1 + n1:
                 return True
     return False
@@ -284,6 +285,30 @@ def seq_worker(args):
                         seq.append(i)
                 if len(seq) >= 3:
                     work.append((seq, rng, ((True, True), (False, True))))
+            # (D) deterministic sweep: register store; second store cutting it at the front, the back or the middle;
+            # load over what is left (the in-block load must see the surviving bytes of the first register)
+            mk = lambda load, w, reg, disp: ({8: b"\x8a", 16: b"\x66\x8b", 32: b"\x8b"}[w] if load else {8: b"\x88", 16: b"\x66\x89", 32: b"\x89"}[w]) + bytes([0x40 | (reg << 3) | 3, disp])
+            sweep = []
+            for w1 in (16, 32):
+                for d1 in (0, 1, 2, 3):
+                    for w2 in (8, 16, 32):
+                        for d2 in (0, 1, 2, 3, 4):
+                            for w3, d3 in ((32, 4), (32, d1), (16, d1 + 1), (8, d1 + w1 // 8 - 1), (32, 0), (16, d2 + w2 // 8)):
+                                sweep.append([mk(False, w1, 0, d1), mk(False, w2, 1, d2), mk(True, w3, 2, d3)])
+            drng = random.Random(4242)
+            for code in sweep:
+                seq = []
+                for b in code:
+                    isa.reset_pending(dis)
+                    try:
+                        i = dis(b + b"\x90" * ml)
+                    except Exception:
+                        i = None
+                    isa.reset_pending(dis)
+                    if i is not None:
+                        seq.append(i)
+                if len(seq) == 3:
+                    work.append((seq, drng, ((True, True),)))
         for seq, rng, cfgs in work:
             for cfg in cfgs:
                 conf.Cas.noaliasing, conf.Cas.memtrace = cfg
@@ -358,9 +383,9 @@ def seq_worker(args):
                                 if cfg[0] and distinct_pointers_overlap(pointer_accesses(m1, st0)):
                                     return False
                                 if any(f1(r)._is_cst and s1(r)._is_cst and f1(r).v != s1(r).v for r in regs):
-                                    return True
+                                    return "reg"
                                 x1, y1 = flat_mem(f1.mmap, E), flat_mem(s1.mmap, E)
-                                return x1 is not None and y1 is not None and any(p is not None and q is not None and p != q for p, q in zip(x1, y1))
+                                return "mem" if (x1 is not None and y1 is not None and any(p is not None and q is not None and p != q for p, q in zip(x1, y1))) else False
                             except Timeout:
                                 raise
                             except Exception:
@@ -387,7 +412,16 @@ def seq_worker(args):
                             pass
                         if minimal is not None:
                             key = "%s|%s" % (name, minimal[0].mnemonic) if len(minimal) == 1 else "%s|after-earlier-write:%s" % (name, minimal[-1].mnemonic)
-                        if not cfg[1] and all(d[0].startswith("mem") for d in diffs):
+                        try:
+                            wrapped = any(a_[3] for a_ in pointer_accesses(mapper(minimal) if minimal else m, s0))
+                        except Exception:
+                            wrapped = False
+                        if wrapped:
+                            # the concrete memory is a flat unbounded map: an access that runs over the end of the address
+                            # space, or base+displacement wrapping around it, lands on other cells than on the symbolic route
+                            key = "%s|access-wraps-around-the-address-space" % name
+                        only_mem = all(d[0].startswith("mem") for d in diffs) or (minimal is not None and route_differs(minimal) == "mem")
+                        if not cfg[1] and only_mem:
                             # with memory tracing off, stores are kept in the block's MemoryMap only and the composition
                             # (which replays the ordered map) does not see them
                             key = "memtrace-off|stores-not-replayed-by-composition"
